@@ -157,7 +157,6 @@ Proof.
   destruct (PointAddMixed_limbs (x, y, z) px py) as [[tx ty] tz].
   destruct Lt as (Ltx & Lty & Ltz). cbn [fst snd] in *.
   unfold feJ in Et. cbn [fst snd] in Et. rewrite Ex, Ey, Ez, Epx, Epy in Et.
-  fold (PointAddMixed_model (xf, yf, zf) pxf pyf) in Et.
   destruct (factor_limbs_ok 1 ltac:(lia)) as [Lf Ef].
   (* the masks *)
   assert (HpM : nonZeroToAllOnes_w (Z.to_N idxZ) = mask_of (negb (idxZ =? 0))).
@@ -183,9 +182,84 @@ Proof.
           (CopyConditional_loose _ tz c1 Lz1 Ltz).
   unfold simB. cbn [fst snd]. split; [|split].
   - unfold looseJ; cbn [fst snd]. destruct c1, nI; repeat split; assumption.
-  - unfold feJ; cbn [fst snd]. fold c1.
-    destruct (PointAddMixed_model (xf, yf, zf) pxf pyf) as [[txf tyf] tzf]. injection Et as Etx Ety Etz.
-    rewrite (factor_model 1 ltac:(lia)).
-    destruct c1, nI; cbn [andb negb]; rewrite ?Etx, ?Ety, ?Etz, ?Ex, ?Ey, ?Ez, ?Epx, ?Epy, ?Ef; try reflexivity.
+  - unfold feJ; cbn [fst snd]. fold c1. change (sm2P256PointAddMixed gen_curve) with PointAddMixed_model.
+    destruct c1.
+    + exact Et.
+    + destruct nI.
+      * rewrite Epx, Epy, Ef. rewrite (factor_model 1 ltac:(lia)). reflexivity.
+      * rewrite Ex, Ey, Ez. reflexivity.
   - reflexivity.
+Qed.
+
+Lemma loop_sim : forall scalar is sl sf, simB sl sf ->
+  simB (baseMult_loop_limbs scalar is sl) (loopF scalar is sf).
+Proof.
+  intros scalar is. induction is as [|i rest IH]; intros sl sf H; [exact H|].
+  destruct sl as [acc nMask]. destruct sf as [accf nI]. cbn [baseMult_loop_limbs baseMult_loop].
+  apply IH. apply step_sim; [right; reflexivity|]. apply step_sim; [left; reflexivity|].
+  destruct H as (HL & HF & HM). cbn [fst snd] in *.
+  destruct (i =? 0).
+  - exact (conj HL (conj HF HM)).
+  - destruct (PointDouble_limbs_correct acc HL) as [L E].
+    unfold simB; cbn [fst snd]. split; [exact L|]. split; [|exact HM].
+    rewrite E, HF. reflexivity.
+Qed.
+
+Theorem sm2P256ScalarBaseMult_limbs_correct : forall scalar,
+  looseJ (sm2P256ScalarBaseMult_limbs scalar) /\
+  feJ (sm2P256ScalarBaseMult_limbs scalar) =
+    sm2P256ScalarBaseMult gen_curve gen_RInverse gen_sm2P256Precomputed gen_sm2P256Factor scalar.
+Proof.
+  intros scalar. unfold sm2P256ScalarBaseMult_limbs, sm2P256ScalarBaseMult.
+  assert (H0 : simB ((zeros9, zeros9, zeros9), ones32) (jzero, true)).
+  { unfold simB; cbn [fst snd]. split; [|split; reflexivity].
+    assert (Lz : looseL zeros9) by (apply looseLb_sound; reflexivity).
+    exact (conj Lz (conj Lz Lz)). }
+  destruct (loop_sim scalar (map Z.of_nat (seq 0 32)) _ _ H0) as (HL & HF & _).
+  split; assumption.
+Qed.
+
+(* ---------- sm2P256PointToAffine / sm2P256ToAffine on limbs -------------------------------------------------------- *)
+(* zz := ToBig(z); zz.ModInverse(zz, P) (0 stays 0); zInv := FromBig(zz); then Square, Mul, Mul, Mul; ToBig of both *)
+Definition sm2P256ToAffine_limbs (J : jacL) : Z * Z :=
+  let '(x, y, z) := J in
+  let zz := fe z in
+  let zz := modinv zz gen_P in
+  let zInv := sm2P256FromBig_limbs zz in
+  let zInvSq := sm2P256Square_limbs zInv in
+  let xOut := sm2P256Mul_limbs x zInvSq in
+  let zInv := sm2P256Mul_limbs zInv zInvSq in
+  let yOut := sm2P256Mul_limbs y zInv in
+  (fe xOut, fe yOut).
+
+Theorem sm2P256ToAffine_limbs_correct : forall J, looseJ J ->
+  sm2P256ToAffine_limbs J = sm2P256ToAffine gen_curve (feJ J).
+Proof.
+  intros [[x y] z] (Lx & Ly & Lz). cbn [fst snd] in *.
+  unfold sm2P256ToAffine_limbs, sm2P256ToAffine, sm2P256PointToAffine, feJ, bigModInverse. cbn [fst snd].
+  rewrite ToBig_fe. change (P256Model.P gen_curve) with gen_P.
+  destruct (fe_FromBig (modinv (fe z) gen_P)) as [Li Ei].
+  destruct (fe_Square _ Li) as [Lsq Esq].
+  destruct (fe_Mul x _ Lx Lsq) as [Lxo Exo].
+  destruct (fe_Mul _ _ Li Lsq) as [Li3 Ei3].
+  destruct (fe_Mul y _ Ly Li3) as [Lyo Eyo].
+  rewrite Exo, Eyo, Ei3, Esq, Ei.
+  unfold Mul_model, Square_model, FromBig_model.
+  assert (TM : forall a b, sm2P256ToBig gen_curve (sm2P256Mul gen_curve a b) = sm2P256Mul gen_curve a b).
+  { intros a b. unfold sm2P256ToBig, sm2P256Mul, P256Model.P. apply Z.mod_mod. discriminate. }
+  rewrite !TM. reflexivity.
+Qed.
+
+(* ---------- the public method on the limb pipeline -------------------------------------------------------------------- *)
+(* func (curve sm2P256Curve) ScalarBaseMult(k []byte): GetScalar, limb-level comb evaluation, limb-level ToAffine *)
+Definition ScalarBaseMult_limbs (k : list N) : outcome (Z * Z) :=
+  do scalar <- sm2P256GetScalar gen_N k;
+  Ok (sm2P256ToAffine_limbs (sm2P256ScalarBaseMult_limbs scalar)).
+
+Theorem ScalarBaseMult_limbs_is_model : forall k, ScalarBaseMult_limbs k = ScalarBaseMult_model k.
+Proof.
+  intros k. unfold ScalarBaseMult_limbs, ScalarBaseMult_model, ScalarBaseMult.
+  destruct (sm2P256GetScalar gen_N k) as [scalar| | |]; cbn [obind]; try reflexivity.
+  destruct (sm2P256ScalarBaseMult_limbs_correct scalar) as [L E].
+  rewrite (sm2P256ToAffine_limbs_correct _ L), E. reflexivity.
 Qed.
